@@ -230,6 +230,12 @@ func (b *BitMatrix) Rotate180() {
 				b.bits[offset+j] = curbits >> uint(32-shift)
 			}
 		}
+	} else {
+		// width is a multiple of 32: the words are already in reverse order,
+		// only the bits inside each word remain to be reversed
+		for i := range b.bits {
+			b.bits[i] = bits.Reverse32(b.bits[i])
+		}
 	}
 }
 
